@@ -363,7 +363,7 @@ PROPS = {
                 'has relative eigen-gap > 1e-6, conditioning bound <= 0.05 and no k/(k+1) distance tie (others are counted '
                 'in trivial_skipped for the direction clause only; unit length, orientation and curvature range are '
                 'checked for every point).',
-        'assumptions': ['direction tolerance 16 eps (1+R/s)^2/gap with R the coordinate magnitude and s the neighbourhood spread (two-pass covariance in the scalar type)'],
+        'assumptions': ['direction tolerance 16 eps (1+R/s)/gap with R the coordinate magnitude and s the neighbourhood spread (two-pass covariance in the scalar type)'],
         'tiers': {'quick': {'deadline': 400, 'case_timeout': 120}, 'thorough': {'deadline': 3000, 'case_timeout': 600}},
         'technique': 'bounded-exhaustive configuration lattice on the real code; PCA reference in long double on the implementation own neighbourhoods, analytic normals for planar clouds, rotation differential oracle',
         'level_text': 'complete enumeration of the cloud / k / type / rotation / output-initialisation lattice with every '
@@ -389,6 +389,28 @@ PROPS = {
         'technique': 'bounded-exhaustive input/configuration lattice on the real estimator, independent reference solution (Horn) in long double',
         'level_text': 'complete enumeration of the stated catalogue through all four overloads and all eight point types; '
                       'properness of the rotation and optimality decided for every case',
+        'level_note': 'catalogue values only',
+    },
+    'C05': {
+        'sources': ['src/transform/estimation/FindRigidTransformationByLeastSquares.cpp', 'src/regression/leastsquares/LeastSquares.cpp',
+                    'src/pointset/algorithms/PreconditionedPointSet.cpp', 'src/pointset/algorithms/PointSetPreconditioner.cpp',
+                    'src/pointset/algorithms/Correspondence.cpp'],
+        'harness': 'c05_lsreg.cpp',
+        'flavour': 'plain',
+        'level': 'exploration',
+        'engine': 'lattice',
+        'rule': 'full lattice point type (8) x scene (6..500 target points with unit normals spanning the space: box faces, '
+                'circle, sphere, room, mixed fields) x rotation angle/axis x translation x exact/perturbed x correspondence '
+                'mode x overload (fresh, one estimator reused across the whole scene, aligned, preconditioned 1e-3 / 1e3); '
+                'the linearised system is rebuilt from the definition in long double and solved by Householder QR. '
+                'non-trivial = non-zero rotation, perturbed data, non-identity correspondences or a non-default overload.',
+        'assumptions': ['normal-equation accuracy bound 64 p eps kappa(J)^2; systems with kappa(J)^2 >= 1e6 are outside the quantifier, systems that carry no digits in the scalar type (64 p eps kappa^2 > 0.05, e.g. float at scale 1e3) are counted in trivial_skipped',
+                        'preconditioning = same isotropic scale on both sets, no translation, announced through setPreconditioner'],
+        'tiers': {'quick': {'deadline': 400, 'case_timeout': 200}, 'thorough': {'deadline': 3000, 'case_timeout': 900}},
+        'technique': 'bounded-exhaustive input/configuration lattice on the real estimator; the defining linear system rebuilt independently and solved by QR in long double',
+        'level_text': 'complete enumeration of the scene / motion / correspondence / overload lattice for all eight point '
+                      'types; optimality (normal equations), shape of the returned matrix, invariances and estimator reuse '
+                      'decided for every case',
         'level_note': 'catalogue values only',
     },
 }
